@@ -249,11 +249,7 @@ func ruleAckMemory(w *World, r *Report, rule string) {
 			// a set of numbers: it must forget, too — sequence numbers come round again after 65536 chunks
 			nIns, nDel := 0, 0
 			at := ""
-			for i := 0; i < n.NumMethods(); i++ {
-				fn := w.SSAFunc(n.Method(i))
-				if fn == nil {
-					continue
-				}
+			for _, fn := range methodFuncsOf(w, n) {
 				ofAcked := func(v ssa.Value) bool {
 					for _, root := range provenance(v, provOpts{}) {
 						if isLoadOfField(root, acked) {
@@ -288,11 +284,7 @@ func ruleAckMemory(w *World, r *Report, rule string) {
 		}
 		bad := ""
 		nApp, nTrim := 0, 0
-		for i := 0; i < n.NumMethods(); i++ {
-			fn := w.SSAFunc(n.Method(i))
-			if fn == nil {
-				continue
-			}
+		for _, fn := range methodFuncsOf(w, n) {
 			isTrim := func(in ssa.Instruction) bool {
 				st, ok := in.(*ssa.Store)
 				if !ok {
@@ -368,11 +360,7 @@ func ruleAckMemory(w *World, r *Report, rule string) {
 							// the bound may be applied by every caller after the helper returns
 							obj := fnObj(fn)
 							ncall, allBound := 0, true
-							for j := 0; j < n.NumMethods(); j++ {
-								caller := w.SSAFunc(n.Method(j))
-								if caller == nil {
-									continue
-								}
+							for _, caller := range methodFuncsOf(w, n) {
 								for _, c := range callsIn(caller) {
 									if obj == nil || sCallee(c) != obj {
 										continue
@@ -1075,7 +1063,7 @@ func c07Bookkeeping(w *World, r *Report) {
 		bad := ""
 		assigned, inc := false, false
 		for fn := range allModuleFuncs(w, w.SSA()) {
-			if recvNamed(fnObj(fn)) != outQ {
+			if ownerNamed(fn) != outQ {
 				continue
 			}
 			region, _ := lockRegion(fn, func(v ssa.Value) bool { _, ok := v.(*ssa.FieldAddr); return ok })
@@ -1145,7 +1133,7 @@ func c07Bookkeeping(w *World, r *Report) {
 			return false
 		}
 		for fn := range allModuleFuncs(w, w.SSA()) {
-			if recvNamed(fnObj(fn)) != outQ {
+			if ownerNamed(fn) != outQ {
 				continue
 			}
 			allInstrs(fn, func(in ssa.Instruction) {
@@ -1265,6 +1253,97 @@ func c07Bookkeeping(w *World, r *Report) {
 					}
 				}
 				if !okg {
+					// the position comes from a search helper: `p := q.pendingIndex(a); if p < 0 { continue }; out = append(out[0:p], out[p+1:]...)`
+					if sl, ok := call.Call.Args[0].(*ssa.Slice); ok && sl.High != nil {
+						for _, root := range provenance(sl.High, provOpts{}) {
+							hc, ok := root.(*ssa.Call)
+							if !ok {
+								continue
+							}
+							h := hc.Call.StaticCallee()
+							if h == nil || !inModule(h) || len(h.Blocks) == 0 {
+								continue
+							}
+							// every non-constant result of the helper is returned under SeqNo == parameter; constants are negative
+							helperOK, prm := true, -1
+							allInstrs(h, func(in ssa.Instruction) {
+								ret, isRet := in.(*ssa.Return)
+								if !isRet || len(ret.Results) != 1 {
+									return
+								}
+								if k, isC := constIntVal(ret.Results[0]); isC {
+									if k >= 0 {
+										helperOK = false
+									}
+									return
+								}
+								found := false
+								for _, b := range h.Blocks {
+									ifi, ok := b.Instrs[len(b.Instrs)-1].(*ssa.If)
+									if !ok {
+										continue
+									}
+									bo, ok := ifi.Cond.(*ssa.BinOp)
+									if !ok || bo.Op != token.EQL || !edgeDominates(b, 0, ret.Block()) {
+										continue
+									}
+									for _, pair := range [][2]ssa.Value{{bo.X, bo.Y}, {bo.Y, bo.X}} {
+										fa := asFieldAddr(pair[0])
+										if fa == nil || fieldVarOf(fa) != seqF {
+											continue
+										}
+										// the element compared is the one whose index is returned
+										idxOK := false
+										for _, r2 := range provenance(fa.X, provOpts{}) {
+											if u, ok := r2.(*ssa.UnOp); ok {
+												if ia, ok := u.X.(*ssa.IndexAddr); ok && ia.Index == ret.Results[0] {
+													idxOK = true
+												}
+											}
+										}
+										if pi := paramIndex(h, pair[1]); pi >= 0 && idxOK {
+											found, prm = true, pi
+										}
+									}
+								}
+								if !found {
+									helperOK = false
+								}
+							})
+							if !helperOK || prm < 0 || prm >= len(hc.Call.Args) || !isAckElem(hc.Call.Args[prm]) {
+								continue
+							}
+							// and the removal runs only where the search found something
+							nonNeg := false
+							for _, b := range fn.Blocks {
+								ifi, ok := b.Instrs[len(b.Instrs)-1].(*ssa.If)
+								if !ok {
+									continue
+								}
+								bo, ok := ifi.Cond.(*ssa.BinOp)
+								if !ok || bo.X != ssa.Value(hc) {
+									continue
+								}
+								k, isC := constIntVal(bo.Y)
+								if !isC {
+									continue
+								}
+								switch {
+								case bo.Op == token.LSS && k == 0 && edgeDominates(b, 1, st.Block()),
+									bo.Op == token.GEQ && k == 0 && edgeDominates(b, 0, st.Block()),
+									bo.Op == token.GTR && k == -1 && edgeDominates(b, 0, st.Block()),
+									bo.Op == token.NEQ && k == -1 && edgeDominates(b, 0, st.Block()),
+									bo.Op == token.EQL && k == -1 && edgeDominates(b, 1, st.Block()):
+									nonNeg = true
+								}
+							}
+							if nonNeg {
+								okg = true
+							}
+						}
+					}
+				}
+				if !okg {
 					bad = fmt.Sprintf("%s: a packet is removed from the out-queue without its number being equal to an acknowledged number", w.Pos(st.Pos()))
 				}
 			})
@@ -1283,7 +1362,19 @@ func c07Bookkeeping(w *World, r *Report) {
 			n++
 			// every non-nil origin of the result — through a helper such as firstPending() — is out[0]
 			okr, nroots := true, 0
-			for _, root := range provInter(ret.Results[0], 0) {
+			roots := provInter(ret.Results[0], 0)
+			for i := 0; i < len(roots) && i < 32; i++ {
+				// a result variable that the critical section (a function literal) assigns
+				if u, ok := roots[i].(*ssa.UnOp); ok {
+					if cell, ok := u.X.(*ssa.Alloc); ok {
+						for _, v := range capturedCellStores(cell) {
+							roots = append(roots, provInter(v, 0)...)
+						}
+						roots[i] = ssa.NewConst(nil, ret.Results[0].Type())
+					}
+				}
+			}
+			for _, root := range roots {
 				if isConstNil(root) {
 					continue
 				}
@@ -2025,4 +2116,71 @@ func condMentions(cond ssa.Value, a, b *types.Var) (ma, mb bool) {
 	}
 	walk(cond, 0)
 	return
+}
+
+// methodFuncsOf: the declared methods of n and the function literals inside them (critical sections written as
+// closures belong to their method).
+func methodFuncsOf(w *World, n *types.Named) []*ssa.Function {
+	var out []*ssa.Function
+	var add func(f *ssa.Function)
+	add = func(f *ssa.Function) {
+		out = append(out, f)
+		for _, a := range f.AnonFuncs {
+			add(a)
+		}
+	}
+	for i := 0; i < n.NumMethods(); i++ {
+		if fn := w.SSAFunc(n.Method(i)); fn != nil {
+			add(fn)
+		}
+	}
+	return out
+}
+
+// ownerNamed: the receiver type of the method fn is, or is a function literal of.
+func ownerNamed(fn *ssa.Function) *types.Named {
+	for fn != nil && fn.Parent() != nil {
+		fn = fn.Parent()
+	}
+	if fn == nil {
+		return nil
+	}
+	return recvNamed(fnObj(fn))
+}
+
+// capturedCellStores: the values stored into the local variable behind `cell` (an Alloc that function literals
+// capture), in the function itself and in the literals.
+func capturedCellStores(cell *ssa.Alloc) []ssa.Value {
+	var out []ssa.Value
+	if cell.Referrers() == nil {
+		return nil
+	}
+	for _, ref := range *cell.Referrers() {
+		switch x := ref.(type) {
+		case *ssa.Store:
+			if x.Addr == ssa.Value(cell) {
+				out = append(out, x.Val)
+			}
+		case *ssa.MakeClosure:
+			g, _ := x.Fn.(*ssa.Function)
+			if g == nil {
+				continue
+			}
+			for i, b := range x.Bindings {
+				if b != ssa.Value(cell) || i >= len(g.FreeVars) {
+					continue
+				}
+				fv := g.FreeVars[i]
+				if fv.Referrers() == nil {
+					continue
+				}
+				for _, r2 := range *fv.Referrers() {
+					if st, ok := r2.(*ssa.Store); ok && st.Addr == ssa.Value(fv) {
+						out = append(out, st.Val)
+					}
+				}
+			}
+		}
+	}
+	return out
 }
